@@ -21,6 +21,8 @@ PATTERNS = [
     ("re", ("seq", (RX["[ab]"], U.q("c", "?")))), ("re", RX["[^a]"]), ("re", RX["."]), ("cat", (L("a"), ("re", U.q("b", "+")))), ("bin", b"ab"),
     ("re", ("alt", (("seq", (RX["a"], RX["b"])), ("seq", (RX["a"], RX["c"]))))), ("re", ("seq", (RX["a"], RX["."], RX["c"]))), L("\r\n"), ("liti", b"ab"),
     ("re", ("seq", (RX["a"], U.q("b", (2,))))), ("re", ("seq", (RX["\\d"], RX["\\d"]))), L("aa"),
+    ("re", ("seq", (RX["a"], RX["[^a]"], RX["b"]))), ("re", ("seq", (RX["[ab]"], RX["[^ab]"], RX["c"]))), ("re", ("seq", (RX["a"], U.q("[^ab]", "+"), RX["b"]))),
+    ("re", ("seq", (RX["[a-c]"], RX["[^a]"], RX["c"]))), L("aba"), L("abca"), ("liti", b"aAb"), ("re", ("seq", (RX["a"], RX["a"], RX["[ab]"]))),
 ]
 
 CONTEXTS = ["plain", "try", "loop", "plain_eof", "try_eof", "pre"]
@@ -34,6 +36,8 @@ def program(p, ctx):
         st = (("try", (w, ("finish", "F")), None, (("finish", "G"),)),)
     elif ctx == "loop":
         st = (("loop", None, (w, ("hook", "h"))),)
+    elif ctx == "optional":
+        st = (("match", L("c")), ("optional", (w,)), ("finish", "F"))
     elif ctx == "pre":
         st = (("match", L("c")), ("try", (("match", L("x")),), None, (w,)), ("finish", "F"))
     return st
@@ -44,10 +48,10 @@ def live(dfa, q, c):
 
 
 def check_item(item):
-    p, ctx, want_c = item
+    p, ctx, want_c = item[:3]
     prog = program(p, ctx)
     src = U.source(prog)
-    argv = ["-feof-support"] if ctx.endswith("_eof") else []
+    argv = (["-feof-support"] if ctx.endswith("_eof") else []) + (list(item[3]) if len(item) > 3 else [])
     res = dict(src=src, argv=argv, status="ok", states=0, trans=0, problem=None, path=None, creplay=0, shapes=set())
     acc = loader.compile_source(src, argv, codegen=want_c)
     if acc.kind != "accepted":
@@ -270,10 +274,14 @@ def run(tier, seed):
                rule="wait patterns x contexts; product of machine and restart automaton explored to a fixpoint; distinct = (program, (oracle phase, result code)) pairs")
     pats = list(PATTERNS)
     pairs = [("cat", (a, b)) for a, b in itertools.permutations(PATTERNS[:9] if tier == "quick" else PATTERNS[:14], 2)]
+    pairs += [("cat", (a, b)) for a in PATTERNS[20:24] for b in PATTERNS[:3]]
     items = []
     for i, p in enumerate(pats + pairs):
         for ctx in CONTEXTS:
-            items.append((p, ctx, (len(items) % (5 if tier == "quick" else 3)) == seed % (5 if tier == "quick" else 3)))
+            for lv in ([], ["-O3"], ["-O0"]):
+                if lv and tier == "quick" and ctx not in ("plain", "loop", "try_eof") and i >= len(pats):
+                    continue
+                items.append((p, ctx, (len(items) % (7 if tier == "quick" else 3)) == seed % (7 if tier == "quick" else 3), tuple(lv)))
     stats = dict(items=len(items), rejected=0, nullable=0, capped=0)
     for idx, r in pmap(check_item, items, timeout=300, chunksize=4, stop=ck.enough):
         if "harness_error" in r or "harness_timeout" in r:
@@ -306,7 +314,7 @@ def run(tier, seed):
 
 def replay(path):
     d = json.load(open(path))
-    r = check_item((eval(d["pat"]), d["ctx"], True))
+    r = check_item((eval(d["pat"]), d["ctx"], True, tuple(a for a in d["argv"] if a.startswith("-O"))))
     print(r["problem"], r["path"])
     print("REPRODUCED" if r["problem"] else "not reproduced")
     return 1 if r["problem"] else 0
